@@ -143,6 +143,11 @@ var (
 //go:norace
 func Active() bool { return active != 0 }
 
+// Current is the id of the scheduler thread that is running (0 = the body's own thread).
+//
+//go:norace
+func Current() int { return cur }
+
 // tid finds the calling thread. Exactly one thread runs at a time, so it is cur.
 //
 //go:norace
@@ -654,13 +659,32 @@ func Close[T any](c chan T) {
 // Case describes one receive case of a heterogeneous select.
 type Case struct {
 	p    unsafe.Pointer
-	recv func()
+	recv func() any
 	rv   reflect.Value
 }
 
 // RecvCase builds a select case receiving (and discarding) from c.
 func RecvCase[T any](c <-chan T) Case {
-	return Case{p: rchanPtr(c), recv: func() { <-c }, rv: reflect.ValueOf(c)}
+	return Case{p: rchanPtr(c), recv: func() any { <-c; return nil }, rv: reflect.ValueOf(c)}
+}
+
+// RecvCaseV builds a select case whose received value is kept (case v := <-c).
+func RecvCaseV[T any](c <-chan T) Case {
+	return Case{p: rchanPtr(c), recv: func() any { return <-c }, rv: reflect.ValueOf(c)}
+}
+
+// As gives the value a select received from c its static type (c only fixes T).
+func As[T any](c <-chan T, v any) T {
+	t, _ := v.(T)
+	return t
+}
+
+// SelectV is Select for selects in which some case uses the received value.
+func SelectV(hasDefault bool, cases ...Case) (any, int) {
+	if !Active() {
+		return selectRealV(hasDefault, cases)
+	}
+	return selectPtrsV(hasDefault, cases)
 }
 
 // Select replaces a select statement over receive cases (values discarded).
@@ -673,6 +697,11 @@ func Select(hasDefault bool, cases ...Case) int {
 }
 
 func selectReal(hasDefault bool, cases []Case) int {
+	_, i := selectRealV(hasDefault, cases)
+	return i
+}
+
+func selectRealV(hasDefault bool, cases []Case) (any, int) {
 	// Pass-through outside the scheduler (only reached when zap's own test
 	// suite is run against the instrumented build): a real select.
 	sc := make([]reflect.SelectCase, 0, len(cases)+1)
@@ -682,11 +711,14 @@ func selectReal(hasDefault bool, cases []Case) int {
 	if hasDefault {
 		sc = append(sc, reflect.SelectCase{Dir: reflect.SelectDefault})
 	}
-	i, _, _ := reflect.Select(sc)
+	i, v, ok := reflect.Select(sc)
 	if i == len(cases) {
-		return -1
+		return nil, -1
 	}
-	return i
+	if ok && v.IsValid() && v.CanInterface() {
+		return v.Interface(), i
+	}
+	return nil, i
 }
 
 //go:norace
@@ -709,6 +741,11 @@ func selectPoint(ptrs *[maxSel]unsafe.Pointer, n int, hasDefault bool, ready *[m
 }
 
 func selectPtrs(hasDefault bool, cases []Case) int {
+	_, i := selectPtrsV(hasDefault, cases)
+	return i
+}
+
+func selectPtrsV(hasDefault bool, cases []Case) (any, int) {
 	n := len(cases)
 	if n > maxSel {
 		panic("vsched: TOOL-ERROR select with too many cases")
@@ -720,14 +757,14 @@ func selectPtrs(hasDefault bool, cases []Case) int {
 	var ready [maxSel]int
 	k := selectPoint(&ptrs, n, hasDefault, &ready)
 	if k == 0 {
-		return -1
+		return nil, -1
 	}
 	c := 0
 	if k > 1 {
 		c = Choose(k)
 	}
-	cases[ready[c]].recv()
-	return ready[c]
+	v := cases[ready[c]].recv()
+	return v, ready[c]
 }
 
 // ---------------------------------------------------------------------------
